@@ -2,6 +2,7 @@
 position: generators, implementation runner, Gallina encoding, property oracle."""
 import itertools
 import math
+import random
 from fractions import Fraction as F
 
 import numpy as np
@@ -13,7 +14,7 @@ df = import_df()
 
 MODES = ["constant", "edge", "wrap", "symmetric", "reflect"]
 MODE_COQ = dict(constant="PConstant", edge="PEdge", wrap="PWrap", symmetric="PSymmetric", reflect="PReflect")
-NAMES = ["x", "y", "z", "a", "b", "r", "t", "u"]
+NAMES = ["x", "y", "z", "a", "b", "r", "t", "u", "V", "n", "v", "xy"]
 MAXCELLS = 96
 
 
@@ -37,7 +38,7 @@ def default_dims(nd):
 INT_CELLS = [F(1, 2), F(1, 2), F(1, 4), F(3, 2), F(5, 2), F(3, 4), F(1), F(2)]
 
 
-def gen_src(rng, exact=True, nd=None, nmax=6, typed=False):
+def gen_src(rng, exact=True, nd=None, nmax=6, typed=False, plain=False):
     """typed=True: integer-valued corners handed over as Python ints / numpy int64 (region.pmin.dtype is
     int64), mostly fractional cells, n / corners in various container and scalar types"""
     nd = nd or rng.choice([1, 1, 2, 2, 2, 3, 3, 3, 4])
@@ -67,6 +68,10 @@ def gen_src(rng, exact=True, nd=None, nmax=6, typed=False):
             h = l + k * c
             lo.append(F(l))
             hi.append(F(h))
+    if exact and not typed and not plain:
+        # tiny / huge magnitudes (exact powers of two): any absolute tolerance or offset would show
+        mag = F(2) ** rng.choice([0, 0, 0, 0, -200, -60, 40, 300])
+        lo, hi = [x * mag for x in lo], [x * mag for x in hi]
     p1, p2 = list(lo), list(hi)
     for a in range(nd):
         if rng.random() < 0.3:
@@ -98,14 +103,28 @@ def gen_src(rng, exact=True, nd=None, nmax=6, typed=False):
     pm = rng.choice([0.0, 0.2, 0.5])
     valid = [rng.random() >= pm for _ in range(ncell)]
     ty = dict(corner="float", ntype="list", by="n", subcorner="float", vdtype="float")
+    if exact and not plain:
+        ty["vdtype"] = rng.choice(["float", "float", "float", "float", "int", "int", "uint16", "int32", "int32", "float32", "float32",
+                                   "complex", "complex", "complex", "bigint"])
+        ty["ntype"] = rng.choice(["list", "tuple", "nparray", "npscalars", "npmixed"])
+        ty["units"] = rng.choice([None, None, "mixed", "empty"])
+        ty["labels"] = rng.choice([None, None, "prefix", "odd"])
     if typed:
         ty = dict(corner=rng.choice(["int", "int", "npint", "mixed"]), ntype=rng.choice(["list", "tuple", "nparray", "npscalars"]),
                   by=rng.choice(["n", "n", "cell", "cellint"]), subcorner=rng.choice(["int", "npint", "float"]),
-                  vdtype=rng.choice(["float", "int"]))
+                  vdtype=rng.choice(["float", "int", "uint16", "int32"]), units=rng.choice([None, "mixed"]),
+                  labels=rng.choice([None, "prefix"]))
         if nd == 1 and rng.random() < 0.5:
             ty.update(corner="scalar", ntype=rng.choice(["scalar", "list"]), by=rng.choice(["n", "cellscalar"]))
+    vd = ty["vdtype"]
+    if vd in ("int", "uint16", "int32", "bigint"):
+        shift = {"int": 0, "uint16": 400, "int32": 2 ** 31 - 1 - 400, "bigint": 2 ** 62}[vd]
+        vals = [[F(math.floor(v)) + shift for v in row] for row in vals]
+    cplx = vd == "complex"
+    if cplx:     # rows hold (re, im) pairs, component after component
+        vals = [[x for v in row for x in (v, -v + F(1, 2))] for row in vals]
     return dict(exact=exact, p1=[S(x) for x in p1], p2=[S(x) for x in p2], n=n, tf=S(tf), dims=dims,
-                subs=subs, nvdim=nvdim, vals=[[S(v) for v in row] for row in vals], valid=valid, ty=ty)
+                subs=subs, nvdim=nvdim, vals=[[S(v) for v in row] for row in vals], valid=valid, ty=ty, cplx=cplx)
 
 
 def geom(s):
@@ -119,7 +138,7 @@ def typed_seq(xs, how):
     """hand the exact rationals xs to the library as the requested Python / numpy types (integer types
     only where every entry is integral)"""
     fr = [F(x) for x in xs]
-    integral = all(x.denominator == 1 for x in fr)
+    integral = all(x.denominator == 1 and abs(x) < 2 ** 53 for x in fr)
     if how == "scalar" and len(fr) == 1:          # one-dimensional meshes accept bare numbers
         return int(fr[0]) if integral else float(fr[0])
     if how == "int" and integral:
@@ -127,7 +146,7 @@ def typed_seq(xs, how):
     if how == "npint" and integral:
         return np.array([int(x) for x in fr], dtype=np.int64)
     if how == "mixed":
-        return [int(x) if (x.denominator == 1 and i % 2 == 0) else float(x) for i, x in enumerate(fr)]
+        return [int(x) if (x.denominator == 1 and abs(x) < 2 ** 53 and i % 2 == 0) else float(x) for i, x in enumerate(fr)]
     if how == "npfloat":
         return np.array([float(x) for x in fr], dtype=np.float64)
     if how == "tuple":
@@ -137,21 +156,24 @@ def typed_seq(xs, how):
 
 def typed_scalar(x, how):
     x = F(x)
-    if how == "int" and x.denominator == 1:
+    small = abs(x) < 2 ** 53
+    if how == "int" and x.denominator == 1 and small:
         return int(x)
-    if how == "npint" and x.denominator == 1:
+    if how == "npint" and x.denominator == 1 and small:
         return np.int64(int(x))
     if how == "npfloat":
         return np.float64(float(x))
-    if how == "npfloat32" and F(float(np.float32(float(x)))) == x:
+    if how == "npfloat32" and 2.0 ** -120 < abs(float(x)) < 2.0 ** 120 and F(float(np.float32(float(x)))) == x:
         return np.float32(float(x))
     return float(x)
 
 
 def build(s):
     ty = s.get("ty") or dict(corner="float", ntype="list", by="n", subcorner="float", vdtype="float")
+    nd_ = len(s["n"])
+    units = {None: None, "mixed": (["nm", "m", "", "s"] * 2)[:nd_], "empty": [""] * nd_}[ty.get("units")]
     region = df.Region(p1=typed_seq(s["p1"], ty["corner"]), p2=typed_seq(s["p2"], ty["corner"]),
-                       dims=s["dims"], tolerance_factor=fl(s["tf"]))
+                       dims=s["dims"], units=units, tolerance_factor=fl(s["tf"]))
     subregions = {name: df.Region(p1=typed_seq(a, ty["subcorner"]), p2=typed_seq(b, ty["subcorner"]))
                   for name, a, b in s["subs"]}
     n = s["n"]
@@ -160,16 +182,20 @@ def build(s):
         mesh = df.Mesh(region=region, subregions=subregions,
                        cell=typed_seq(cell, {"cell": "float", "cellint": "int", "cellscalar": "scalar"}[ty["by"]]))
     else:
+        widths = [np.uint8, np.int32, np.uint64, np.int16]
         nn = {"list": list(n), "tuple": tuple(n), "nparray": np.array(n), "scalar": n[0],
-              "npscalars": [np.int64(k) for k in n]}[ty["ntype"]]
+              "npscalars": [np.int64(k) for k in n],
+              "npmixed": [widths[i % 4](k) for i, k in enumerate(n)]}[ty["ntype"]]
         mesh = df.Mesh(region=region, n=nn, subregions=subregions)
-    vals = [[F(v) for v in row] for row in s["vals"]]
-    if ty["vdtype"] == "int" and all(v.denominator == 1 for row in vals for v in row):
-        arr = np.array([[int(v) for v in row] for row in vals], dtype=np.int64).reshape(*n, s["nvdim"])
-    else:
-        arr = np.array([[float(v) for v in row] for row in vals], dtype=float).reshape(*n, s["nvdim"])
-    valid = np.array(s["valid"], dtype=bool).reshape(*n)
-    return df.Field(mesh, nvdim=s["nvdim"], value=arr, valid=valid)
+    arr, valid = src_arrays(s)
+    nv = s["nvdim"]
+    vdims = vmap = None
+    if ty.get("labels") and nv > 1:
+        vdims = {"prefix": ["p", "pq", "pqr"], "odd": ["v", "n_", "V"]}[ty["labels"]][:nv]
+        if nv == nd_:      # insertion order of the mapping differs from the order of the labels
+            vmap = {vdims[k]: s["dims"][k] for k in reversed(range(nv))}
+    return df.Field(mesh, nvdim=nv, value=arr, valid=valid, vdims=vdims, vdim_mapping=vmap,
+                    dtype=None if arr.dtype == np.float64 else arr.dtype)
 
 
 # ------------------------------------------------------------------ request generators
@@ -329,7 +355,10 @@ def gen_ops(rng, s, tier):
 
 
 def gen_scale(rng, tier):
-    s = gen_src(rng, exact=False, nmax=6)
+    return gen_scale_ops(rng, tier, gen_src(rng, exact=False, nmax=6))
+
+
+def gen_scale_ops(rng, tier, s):
     nd = len(s["n"])
     flo, fhi = [float(x) for x in geom(s)[0]], [float(x) for x in geom(s)[1]]
     n = s["n"]
@@ -377,6 +406,46 @@ def gen_scale(rng, tier):
     return cases
 
 
+def gen_stateful(rng, tier):
+    """'used, then changed in place' sources: the request is generated against the state the object reports
+    after public in-place calls (mesh / region translate and scale incl. negative factors, field.rotate90,
+    writes into array / valid)"""
+    s = gen_src(rng, exact=True, nmax=5, plain=True)
+    nd = len(s["n"])
+    n = s["n"]
+    ncell = math.prod(n)
+    steps = []
+    kinds = rng.sample(["translate", "scale", "scale", "write", "validset", "validflip", "arrayset", "rot"],
+                       rng.randint(1, 3))
+    if "rot" in kinds and (nd < 2 or s["nvdim"] > 1):   # Field.rotate90 needs a vdim_mapping for vector fields
+        kinds = [k for k in kinds if k != "rot"] or ["translate"]
+    if "rot" in kinds:                      # the quarter turn last: geometry is inexact afterwards
+        kinds = [k for k in kinds if k != "rot"] + ["rot"]
+    for k in kinds:
+        on = "region" if (not s["subs"] and rng.random() < 0.4) else "mesh"
+        if k == "translate":
+            steps.append(dict(op=k, on=on, v=[S(F(rng.randint(-64, 64), 8)) for _ in range(nd)]))
+        elif k == "scale":
+            facs = [2, F(1, 2), -1, 4, -2, F(1, 4), 1]
+            fac = [S(rng.choice(facs)) for _ in range(nd)] if rng.random() < 0.6 else S(rng.choice(facs[:-1]))
+            ref = [S(F(rng.randint(-32, 32), 4)) for _ in range(nd)] if rng.random() < 0.5 else None
+            steps.append(dict(op=k, on=on, f=fac, ref=ref))
+        elif k == "rot":
+            a, b = rng.sample(range(nd), 2)
+            steps.append(dict(op=k, a=a, b=b, k=rng.choice([1, 3, -1, 1, 2])))
+        elif k == "write":
+            steps.append(dict(op=k, idx=[rng.randrange(x) for x in n], val=[S(rng.randint(500, 900)) for _ in range(s["nvdim"])]))
+        elif k == "validset":
+            steps.append(dict(op=k, mask=[rng.random() < 0.6 for _ in range(ncell)]))
+        elif k == "validflip":
+            steps.append(dict(op=k, idx=[rng.randrange(x) for x in n]))
+        else:
+            steps.append(dict(op=k, vals=[[S(1000 + c_ * s["nvdim"] + j) for j in range(s["nvdim"])] for c_ in range(ncell)]))
+    seed = rng.randrange(10 ** 9)
+    return [dict(kind="stateful", src=s, steps=steps, seed=seed, pick=rng.randrange(10 ** 6))
+            for _ in range(6 if tier == "quick" else 10)]
+
+
 def generate(rng, tier):
     nf = 26 if tier == "quick" else 220
     cases = []
@@ -389,6 +458,8 @@ def generate(rng, tier):
         cases += gen_ops(rng, s, tier)
     for k in range(nf // 2):
         cases += gen_scale(rng, tier)
+    for k in range(nf):
+        cases += gen_stateful(rng, tier)
     return cases
 
 
@@ -399,7 +470,7 @@ def subs_coq(subs):
 
 def src_coq(s):
     return (f'(mkSrc {g.ql(s["p1"])} {g.ql(s["p2"])} {g.zl(s["n"])} {g.q(s["tf"])} {g.sl(s["dims"])} '
-            f'{subs_coq(s["subs"])} {g.nat(s["nvdim"])} {g.qll(s["vals"])} {g.bl(s["valid"])})')
+            f'{subs_coq(s["subs"])} {g.nat(len(s["vals"][0]))} {g.qll(s["vals"])} {g.bl(s["valid"])})')
 
 
 def mesh_obs(m):
@@ -408,10 +479,19 @@ def mesh_obs(m):
                 subs=[[k, js(r.pmin), js(r.pmax)] for k, r in m.subregions.items()])
 
 
+def rows_js(a2):
+    """2-d array of cell vectors -> exact strings; complex components as (re, im) pairs; integers exactly"""
+    if np.iscomplexobj(a2):
+        return [[S(x) for v in row for x in (v.real, v.imag)] for row in a2.tolist()]
+    if a2.dtype.kind in "iu":
+        return [[f"{int(v)}/1" for v in row] for row in a2.tolist()]
+    return js(a2)
+
+
 def field_obs(f):
     if isinstance(f, np.ndarray):
-        return dict(value=js(f.reshape(-1)))
-    return dict(mesh=mesh_obs(f.mesh), vals=js(f.array.reshape(-1, f.nvdim)),
+        return dict(value=rows_js(f.reshape(1, -1))[0])
+    return dict(mesh=mesh_obs(f.mesh), vals=rows_js(f.array.reshape(-1, f.nvdim)),
                 valid=[bool(b) for b in f.valid.reshape(-1)])
 
 
@@ -450,10 +530,30 @@ def idx_choices(x, lo, c, k):
     return sorted(set(out))
 
 
+NP_DTYPES = dict(int=np.int64, uint16=np.uint16, int32=np.int32, bigint=np.int64, float32=np.float32)
+
+
 def src_arrays(s):
-    arr = np.array([[fl(v) for v in row] for row in s["vals"]], dtype=float).reshape(*s["n"], s["nvdim"])
+    """the source array in the dtype the case asks for (exact: the generator only emits representable values)"""
+    vd = (s.get("ty") or {}).get("vdtype", "float")
+    rows = [[F(v) for v in row] for row in s["vals"]]
+    if s.get("cplx"):
+        arr = np.array([[complex(float(r[2 * k]), float(r[2 * k + 1])) for k in range(s["nvdim"])] for r in rows],
+                       dtype=np.complex128)
+    elif vd in ("int", "uint16", "int32", "bigint") and all(v.denominator == 1 for r in rows for v in r):
+        arr = np.array([[int(v) for v in r] for r in rows], dtype=NP_DTYPES[vd])
+    elif vd == "float32":
+        arr = np.array([[float(v) for v in r] for r in rows], dtype=np.float32)
+    else:
+        arr = np.array([[float(v) for v in r] for r in rows], dtype=float)
     valid = np.array(s["valid"], dtype=bool).reshape(*s["n"])
-    return arr, valid
+    return arr.reshape(*s["n"], s["nvdim"]), valid
+
+
+def aeq(a, b):
+    """exact array equality across dtypes (Python compares int / float / complex numbers exactly)"""
+    a, b = np.asarray(a), np.asarray(b)
+    return a.shape == b.shape and a.tolist() == b.tolist()
 
 
 def tau(s, a, x):
@@ -490,9 +590,9 @@ def check_block(rec, s, res, offs_choices, counts_of, sub_rule=None):
             return None
         chosen.append(ok)
     sl = tuple(slice(off, off + cnt) for off, cnt in chosen)
-    if res.array.shape != arr[sl].shape or not np.array_equal(res.array, arr[sl]):
+    if res.array.shape != arr[sl].shape or not aeq(res.array, arr[sl]):
         rec["oracle"].append("value-moved")
-    if res.valid.shape != valid[sl].shape or not np.array_equal(res.valid, valid[sl]):
+    if res.valid.shape != valid[sl].shape or not aeq(res.valid, valid[sl]):
         rec["oracle"].append("validity-moved")
     return chosen
 
@@ -508,7 +608,7 @@ def pointwise(rec, src_f, res_f, rng_pts, lift=lambda q: q):
         except Exception:  # noqa: BLE001
             rec["oracle"].append("point-lookup-failed")
             return
-        if not np.array_equal(v, w):
+        if not aeq(v, w):
             rec["oracle"].append("pointwise-value")
         if bool(vv) != bool(ww):
             rec["oracle"].append("pointwise-validity")
@@ -548,11 +648,135 @@ def pad_source_index(mode, k, j):
 
 
 # ------------------------------------------------------------------ implementation
+def freeze(o):
+    """hashable snapshot of a caller-supplied argument"""
+    if isinstance(o, df.Region):
+        return ("region", o.pmin.tobytes(), o.pmax.tobytes(), str(o.pmin.dtype), tuple(o.dims), tuple(o.units))
+    if isinstance(o, np.ndarray):
+        return ("nd", str(o.dtype), o.shape, o.tobytes())
+    if isinstance(o, dict):
+        return ("dict", tuple((k, freeze(v)) for k, v in o.items()))
+    if isinstance(o, (list, tuple)):
+        return (type(o).__name__, tuple(freeze(v) for v in o))
+    return (type(o).__name__, repr(o))
+
+
+def snap(f):
+    """everything a call could disturb in its source field"""
+    m = f.mesh
+    return (f.array.tobytes(), str(f.array.dtype), f.array.shape, f.valid.tobytes(), str(f.valid.dtype),
+            freeze(m.region), m.n.tobytes(), m.bc, id(m), id(m.region), id(f.array), id(f.valid),
+            tuple((k, freeze(r), id(r)) for k, r in m.subregions.items()),
+            tuple(f.vdims) if f.vdims is not None else None, tuple(f.vdim_mapping.items()), f.unit, f.nvdim)
+
+
+def keep(rec, name, obj):
+    rec.setdefault("_args", []).append((name, obj, freeze(obj)))
+
+
+def guarded(c, f):
+    """run the request twice on the same source object: source and caller arguments untouched, same answer"""
+    before = snap(f)
+    rec = _run_case(c, f)
+    mid = snap(f)
+    rec2 = _run_case(c, f)
+    after = snap(f)
+    if before != mid or mid != after:
+        rec["oracle"].append("source-changed-by-call")
+    if js(rec2["obs"]) != js(rec["obs"]):
+        rec["oracle"].append("repeat-call-differs")
+    for r_ in (rec, rec2):
+        for name, obj, fr in r_.pop("_args", []):
+            if freeze(obj) != fr:
+                rec["oracle"].append("caller-argument-changed")
+    vd = (c["src"].get("ty") or {}).get("vdtype")
+    if vd == "bigint" and c["kind"] in ("sel", "getregion", "getname", "pad"):
+        rec["tags"].append("C07-int64-beyond-2p53-cast-to-float")
+    rec["oracle"] = sorted(set(rec["oracle"]))
+    return rec
+
+
+def observe_src(f, exact):
+    """the source as the object reports it NOW (after in-place changes)"""
+    m = f.mesh
+    return dict(exact=exact, p1=js(m.region.pmin), p2=js(m.region.pmax), n=[int(k) for k in m.n],
+                tf=S(m.region.tolerance_factor), dims=list(m.region.dims),
+                subs=[[k, js(r.pmin), js(r.pmax)] for k, r in m.subregions.items()],
+                nvdim=int(f.nvdim), vals=rows_js(f.array.reshape(-1, f.nvdim)),
+                valid=[bool(b) for b in f.valid.reshape(-1)], cplx=False)
+
+
+def use_first(f, s):
+    """use the object before it is changed in place: derived quantities, lookups, the operations themselves"""
+    m = f.mesh
+    nd = m.region.ndim
+    dims = m.region.dims
+    acts = [lambda: m.cell, lambda: m.dV, lambda: m.index2point((0,) * nd), lambda: m.point2index(m.region.center),
+            lambda: list(m)[:3], lambda: list(m.indices)[:3], lambda: m.cells, lambda: m.vertices, lambda: len(m),
+            lambda: f.norm, lambda: f(m.region.center), lambda: f.sel(dims[0]), lambda: m.sel(dims[-1]),
+            lambda: f.sel(**{dims[0]: (float(m.region.pmin[0]), float(m.region.pmax[0]))}),
+            lambda: f.pad({dims[0]: (1, 2)}, mode="symmetric"), lambda: m.pad({dims[-1]: (1, 0)}),
+            lambda: f.resample(tuple(int(k) + 1 for k in m.n)), lambda: f[m.region], lambda: m[m.region],
+            lambda: m.region2slices(m.region)] + [(lambda k=k: f[k]) for k in m.subregions]
+    for a_ in acts:
+        attempt(a_)
+
+
+def apply_step(f, st):
+    m = f.mesh
+    target = m if st.get("on", "mesh") == "mesh" else m.region
+    if st["op"] == "translate":
+        target.translate(fls(st["v"]), inplace=True)
+    elif st["op"] == "scale":
+        fac = fls(st["f"]) if isinstance(st["f"], list) else fl(st["f"])
+        target.scale(fac, reference_point=fls(st["ref"]) if st.get("ref") else None, inplace=True)
+    elif st["op"] == "rot":
+        dims = m.region.dims
+        f.rotate90(dims[st["a"]], dims[st["b"]], k=st["k"], inplace=True)
+    elif st["op"] == "write":
+        f.array[tuple(st["idx"])] = fls(st["val"])
+    elif st["op"] == "validset":
+        f.valid = np.array(st["mask"], dtype=bool).reshape(f.valid.shape)
+    elif st["op"] == "validflip":
+        f.valid[tuple(st["idx"])] = not f.valid[tuple(st["idx"])]
+    elif st["op"] == "arrayset":
+        f.array = np.array([fls(r_) for r_ in st["vals"]]).reshape(f.array.shape)
+
+
+def run_stateful(c):
+    s = c["src"]
+    f = build(s)
+    use_first(f, s)
+    rotated = False
+    for st in c["steps"]:
+        apply_step(f, st)
+        rotated = rotated or st["op"] == "rot"
+    s2 = observe_src(f, exact=not rotated)
+    rng = random.Random(c["seed"])
+    ops = gen_scale_ops(rng, "quick", s2) if rotated else gen_ops(rng, s2, "quick")
+    i = c["pick"] % len(ops)
+    for j in (i - 2, i - 1):       # other requests of the same shape on the same object first
+        if j >= 0:
+            attempt(lambda: _run_case(ops[j], f))
+    rec = guarded(ops[i], f)
+    rec["key"] = "stateful/" + "+".join(st["op"] + st.get("on", "")[:1] for st in c["steps"]) + "/" + rec["key"]
+    rec["obs"] = dict(state=dict(pmin=s2["p1"], pmax=s2["p2"], n=s2["n"]), request={k: v for k, v in ops[i].items() if k != "src"},
+                      result=rec["obs"])
+    rec["kind"] = "stateful"
+    rec["case"] = c
+    return rec
+
+
 def run_case(c):
+    if c["kind"] == "stateful":
+        return run_stateful(c)
+    return guarded(c, build(c["src"]))
+
+
+def _run_case(c, f):
     kind = c["kind"]
     s = c["src"]
     rec = dict(kind=kind, case=c, oracle=[], tags=[])
-    f = build(s)
     mesh = f.mesh
     lo, hi, cell = geom(s)
     n = s["n"]
@@ -578,6 +802,7 @@ def run_case(c):
                 v = typed_seq([arg["x1"], arg["x2"]], "npint")     # int64 array where both ends are integral
             else:
                 v = {"tuple": (x1, x2), "list": [x1, x2], "array": np.array([float(x1), float(x2)])}[form]
+            keep(rec, "range", v)
             call_m = lambda: mesh.sel(**{dim: v})   # noqa: E731
             call_f = lambda: f.sel(**{dim: v})      # noqa: E731
         stm, rm = attempt(call_m)
@@ -629,7 +854,7 @@ def run_case(c):
                 else:
                     if nd == 1:
                         if isinstance(rf, np.ndarray):
-                            if not any(np.array_equal(rf, arr[k]) for k in ch[0]):
+                            if not any(aeq(rf, arr[k]) for k in ch[0]):
                                 rec["oracle"].append("value-moved")
                     elif isinstance(rf, np.ndarray):
                         rec["oracle"].append("plane-selection-not-a-field")
@@ -638,8 +863,8 @@ def run_case(c):
                         good = False
                         for k in ch[0]:
                             sl = tuple(k if b == a else slice(None) for b in range(nd))
-                            if (rf.array.shape == arr[sl].shape and np.array_equal(rf.array, arr[sl])
-                                    and np.array_equal(rf.valid, valid[sl])):
+                            if (rf.array.shape == arr[sl].shape and aeq(rf.array, arr[sl])
+                                    and aeq(rf.valid, valid[sl])):
                                 good = True
                         if not good:
                             rec["oracle"].append("plane-not-the-cell-containing-the-coordinate")
@@ -664,9 +889,9 @@ def run_case(c):
                                 if not has and name in got:
                                     rec["oracle"].append("subregion-outside-selection-kept")
             if stm == "ok" and stf == "ok" and not isinstance(rf, np.ndarray):
-                if not (np.array_equal(rm.region.pmin, rf.mesh.region.pmin)
-                        and np.array_equal(rm.region.pmax, rf.mesh.region.pmax)
-                        and np.array_equal(rm.n, rf.mesh.n)):
+                if not (aeq(rm.region.pmin, rf.mesh.region.pmin)
+                        and aeq(rm.region.pmax, rf.mesh.region.pmax)
+                        and aeq(rm.n, rf.mesh.n)):
                     rec["oracle"].append("mesh-and-field-selection-differ")
         else:
             if stm == "ok" or stf == "ok":
@@ -682,6 +907,7 @@ def run_case(c):
         blo = [min(x, y) for x, y in zip(q1, q2)]
         bhi = [max(x, y) for x, y in zip(q1, q2)]
         item = df.Region(p1=typed_seq(c["q1"], c.get("qt", "float")), p2=typed_seq(c["q2"], c.get("qt", "float")))
+        keep(rec, "item", item)
         inside = all(l <= x and y <= h for l, h, x, y in zip(lo, hi, blo, bhi))
         outside = any(clearly_outside(s, a, blo[a]) or clearly_outside(s, a, bhi[a]) for a in range(nd))
         i_lo = [math.floor((x - l) / cc) for x, l, cc in zip(blo, lo, cell)]
@@ -724,8 +950,8 @@ def run_case(c):
                 offs = [[(a_, b_ - a_ + 1)] for a_, b_ in zip(i_lo, i_hi)]
                 check_block(rec, s, rf, offs, None)
                 pointwise(rec, f, rf, sample_points(rf.mesh))
-                if not (np.array_equal(rm.region.pmin, rf.mesh.region.pmin) and np.array_equal(rm.n, rf.mesh.n)
-                        and np.array_equal(rm.region.pmax, rf.mesh.region.pmax)):
+                if not (aeq(rm.region.pmin, rf.mesh.region.pmin) and aeq(rm.n, rf.mesh.n)
+                        and aeq(rm.region.pmax, rf.mesh.region.pmax)):
                     rec["oracle"].append("mesh-and-field-selection-differ")
                 if list(rf.mesh.region.dims) != list(s["dims"]):
                     rec["oracle"].append("dims-changed")
@@ -765,6 +991,7 @@ def run_case(c):
         d = {s["dims"][a]: conv(pw[a]) for a in c["axes"]}
         if c["cls"] == "unknown-dim":
             d["qq"] = (1, 1)
+        keep(rec, "pad_width", d)
         stm, rm = attempt(lambda: mesh.pad(d))
         stf, rf = attempt(lambda: f.pad(d, mode=md))
         neg = any(w < 0 for pr in pw for w in pr)
@@ -787,7 +1014,7 @@ def run_case(c):
                         rec["oracle"].append("pad-count-" + which)
                 if not rec["oracle"]:
                     inner = tuple(slice(w[0], w[0] + k) for k, w in zip(n, pw))
-                    if not np.array_equal(rf.array[inner], arr) or not np.array_equal(rf.valid[inner], valid):
+                    if not aeq(rf.array[inner], arr) or not aeq(rf.valid[inner], valid):
                         rec["oracle"].append("value-moved")
                     bad = False
                     for i in itertools.product(*[range(k) for k in rf.mesh.n]):
@@ -796,7 +1023,7 @@ def run_case(c):
                             wv, wb = np.zeros(s["nvdim"]), False
                         else:
                             wv, wb = arr[tuple(srcs)], valid[tuple(srcs)]
-                        if not np.array_equal(rf.array[i], wv) or bool(rf.valid[i]) != bool(wb):
+                        if not aeq(rf.array[i], wv) or bool(rf.valid[i]) != bool(wb):
                             bad = True
                     if bad:
                         rec["oracle"].append("padding-cells-do-not-follow-mode")
@@ -814,6 +1041,7 @@ def run_case(c):
         nt = c.get("nt", "tuple")
         nn_arg = {"tuple": tuple(nn), "list": list(nn), "nparray": np.array(nn),
                   "npscalars": tuple(np.int64(k) for k in nn)}[nt]
+        keep(rec, "resolution", nn_arg)
         stf, rf = attempt(lambda: f.resample(nn_arg))
         of = field_obs(rf) if stf == "ok" else None
         wellformed = len(nn) == nd and all(k > 0 for k in nn)
@@ -836,7 +1064,7 @@ def run_case(c):
                         dist = [abs(lo[a] + (i + F(1, 2)) * cell[a] - q) for i in range(n[a])]
                         dm = min(dist)
                         cands.append([i for i, dd in enumerate(dist) if dd == dm])
-                    if not any(np.array_equal(rf.array[j], arr[i]) and bool(rf.valid[j]) == bool(valid[i])
+                    if not any(aeq(rf.array[j], arr[i]) and bool(rf.valid[j]) == bool(valid[i])
                                for i in itertools.product(*cands)):
                         bad = True
                 if bad:
@@ -901,9 +1129,9 @@ def run_case(c):
                         rec["oracle"].append("block-not-the-requested-cells")
             if not rec["oracle"]:
                 sl = tuple(slice(o, o + k) for o, k in zip(offs, rn))
-                if rf.array.shape != arr[sl].shape or not np.array_equal(rf.array, arr[sl]):
+                if rf.array.shape != arr[sl].shape or not aeq(rf.array, arr[sl]):
                     rec["oracle"].append("value-moved")
-                if rf.valid.shape != valid[sl].shape or not np.array_equal(rf.valid, valid[sl]):
+                if rf.valid.shape != valid[sl].shape or not aeq(rf.valid, valid[sl]):
                     rec["oracle"].append("validity-moved")
         rec["oracle"] = sorted(set(rec["oracle"]))
         rec.update(obs=dict(field=of if of else rf),
